@@ -185,6 +185,8 @@ pub struct Outcome {
     /// max instructions inside one Interpreter::step() call
     pub max_step_instr: u64,
     pub max_call_depth: usize,
+    /// gc_stats().live_objects after each host-forced collection at a suspension
+    pub live_at_suspend: Vec<u64>,
 }
 
 impl Outcome {
@@ -331,6 +333,7 @@ pub struct Run {
     provided: std::collections::BTreeSet<String>,
     pub stop_reason: Option<String>,
     keepalive: Vec<RuntimeValue>,
+    console_start: usize,
 }
 
 pub const MAX_ROUNDS: u64 = 400;
@@ -352,6 +355,7 @@ impl Run {
             provided: Default::default(),
             stop_reason: None,
             keepalive: Vec::new(),
+            console_start: 0,
         }
     }
 
@@ -494,6 +498,7 @@ impl Run {
         if self.spec.gc.force_at_suspend {
             h.interp.collect();
             self.out.forced_collects += 1;
+            self.out.live_at_suspend.push(h.interp.gc_stats().live_objects as u64);
         }
         if self.unanswered.is_empty() && self.deferred.is_empty() {
             // Nothing the host can do. One extra step is allowed (in-program promise jobs may
@@ -617,6 +622,7 @@ impl Run {
         }
         if !self.started {
             self.started = true;
+            self.console_start = h.console.borrow().len();
             h.interp.set_gc_threshold(self.spec.gc.threshold as usize);
             let path = self.spec.path.clone().map(ModulePath::new);
             let r = match self.spec.driver {
@@ -650,7 +656,7 @@ impl Run {
     }
 
     pub fn finalize(&mut self, h: &mut Host) {
-        self.out.console = h.console.borrow().clone();
+        self.out.console = h.console.borrow().get(self.console_start..).map(|s| s.to_vec()).unwrap_or_default();
         let names = {
             let mut n = h.interp.get_export_names();
             n.sort();
